@@ -22,8 +22,9 @@ META["C11"] = {
 PROG = {
     "a.f90": ["module mod_a", "integer :: count", "abstract interface", "function area_fn(r)", "real :: r, area_fn", "end function area_fn",
               "end interface", "type stack", "integer :: items", "integer :: count", "contains",
-              "procedure :: push", "end type stack", "contains",
+              "procedure :: push", "final :: wipe", "end type stack", "contains",
               "subroutine push(self)", "class(stack) :: self", "end subroutine push",
+              "subroutine wipe(self)", "type(stack) :: self", "end subroutine wipe",
               "subroutine work(n)", "integer :: n", "contains", "function scale(x)", "real :: x, scale", "end function scale",
               "end subroutine work", "end module mod_a"],
     "b.f90": ["module mod_b", "type circle", "real :: r", "end type circle", "interface circle", "module procedure new_circle", "end interface circle",
@@ -34,9 +35,10 @@ PSET = dict(proc_internals=True, display=["public", "private", "protected"])
 
 # abstract description of what the program declares: entity path -> (kind, {child kind: [names]})
 TREE = {
-    "mod_a": ("module", {"variable": ["count"], "type": ["stack"], "subroutine": ["push", "work"], "absinterface": ["area_fn"]}),
+    "mod_a": ("module", {"variable": ["count"], "type": ["stack"], "subroutine": ["push", "wipe", "work"], "absinterface": ["area_fn"]}),
     "mod_a/area_fn": ("absinterface", {}),
-    "mod_a/stack": ("type", {"variable": ["items", "count"], "bound": ["push"]}),
+    "mod_a/stack": ("type", {"variable": ["items", "count"], "bound": ["push"], "final": ["wipe@finalproc"]}),
+    "mod_a/stack/wipe@finalproc": ("final", {}), "mod_a/wipe": ("subroutine", {"variable": ["self"]}),
     "mod_a/push": ("subroutine", {"variable": ["self"]}),
     "mod_a/work": ("subroutine", {"variable": ["n"], "function": ["scale"]}),
     "mod_a/work/scale": ("function", {"variable": ["x"]}),
@@ -52,7 +54,7 @@ TREE = {
 PROJECT_LEVEL = {  # what Project.find searches: kind -> {name: path}
     "module": {"mod_a": "mod_a", "mod_b": "mod_b"},
     "type": {"stack": "mod_a/stack", "circle": "mod_b/circle"},
-    "procedure": {"push": "mod_a/push", "work": "mod_a/work", "scale": "mod_b/scale", "new_circle": "mod_b/new_circle",
+    "procedure": {"push": "mod_a/push", "wipe": "mod_a/wipe", "work": "mod_a/work", "scale": "mod_b/scale", "new_circle": "mod_b/new_circle",
                   "circle": "mod_b/circle@interface"},
     "absinterface": {"area_fn": "mod_a/area_fn"},
 }
@@ -81,6 +83,10 @@ LINKS = [
     ("[[mod_b:circle(type)]]", "mod_b", None, "circle", "type"), ("[[MOD_B(module):Circle(Interface)]]", "mod_b", "module", "circle", "interface"),
     ("[[circle]]", "circle", None, None, None), ("[[circle(type)]]", "circle", "type", None, None), ("[[circle(proc)]]", "circle", "proc", None, None),
     ("[[circle:r]]", "circle", None, "r", None), ("[[mod_b:new_circle(function)]]", "mod_b", None, "new_circle", "function"),
+    # a final procedure is an item of its type (anchor on the type's page); the subroutine it names is a procedure of the module
+    ("[[stack:wipe]]", "stack", None, "wipe", None), ("[[stack:wipe(final)]]", "stack", None, "wipe", "final"),
+    ("[[stack(type):wipe(final)]]", "stack", "type", "wipe", "final"), ("[[wipe]]", "wipe", None, None, None),
+    ("[[mod_a:wipe]]", "mod_a", None, "wipe", None),
 ]
 
 
@@ -152,7 +158,7 @@ def _entity(project, path):
     ent = [m for m in project.modules if m.name == parts[0]][0]
     for p_ in parts[1:]:
         nxt = None
-        lists = ("types", "subroutines", "functions", "variables", "boundprocs", "args", "absinterfaces", "interfaces")
+        lists = ("types", "subroutines", "functions", "variables", "boundprocs", "finalprocs", "args", "absinterfaces", "interfaces")
         if "@" in p_:
             p_, only = p_.split("@")
             lists = (only + "s",)
